@@ -863,9 +863,9 @@ func main() {
 		_ = i
 	}
 
-	// the race-detector pass (thorough tier, or VERIF_RACE=1)
+	// the race-detector pass (both tiers; VERIF_RACE=0 skips it)
 	raceInfo := map[string]any{"ran": false}
-	if p.Race && (tier == "thorough" || os.Getenv("VERIF_RACE") == "1") && os.Getenv("VERIF_RACE") != "0" {
+	if p.Race && os.Getenv("VERIF_RACE") != "0" && *fReplay == "" {
 		n := runs / 25
 		if n > 3000 {
 			n = 3000
